@@ -411,7 +411,7 @@ func c09Oracle(s *sim, op Op, idx int) {
 func c09Spec() propSpec {
 	return propSpec{
 		prop: "C09", test: "TestVerifC09MirrorHostile",
-		rule: "histories of 3-40 ops against one real Mirror: proposed headers / votes at relative heights -2..+3 and rounds -1..+3 with every content, commit-proof and signature corruption variant, replayed headers of every variant, state machine entrances and actions, stalled consumers, concurrent groups, clean restarts; every call has a fake-time deadline and a poll-counting context; non-trivial = some input outside the (voting height, voting round) window or malformed; distinct = fingerprint of (config, op list)",
+		rule: "histories of 3-40 ops against one real Mirror: proposed headers / votes at relative heights -2..+3 and rounds -1..+3 with every content, commit-proof and signature corruption variant, replayed headers of every variant, state machine entrances and actions, stalled consumers, concurrent groups, clean restarts; one proposed-header / vote call in six is made by an impatient caller whose context reports cancellation from a generated poll on (i.e. at a generated point inside the call); every call has a fake-time deadline and a poll-counting context; non-trivial = some input outside the (voting height, voting round) window or malformed; distinct = fingerprint of (config, op list)",
 		profile: genProfile{
 			w:              map[string]int{"ph": 8, "vote": 10, "round": 4, "replay": 3, "sment": 2, "smact": 2, "stall": 1, "read": 1, "conc": 2, "restart": 1, "time": 1, "fetch": 2},
 			phVariants:     allVariants(phVariants),
@@ -423,6 +423,7 @@ func c09Spec() propSpec {
 			dh: []int{0, 0, 0, 0, -1, -1, 1, 1, 2, 3, -2}, dr: []int{0, 0, 0, 1, 1, 2, 3, -1},
 			multiTarget: true,
 			lostHeader:  true,
+			impatient:   true,
 		},
 		own:    ownership{liveness: true},
 		oracle: c09Oracle,
